@@ -131,6 +131,7 @@ theorem negotiate_ok {o a : Pc} (ho : WF o) (ha : WF a) (hp : Paired o a) (hc : 
       rw [this] at hy
       rw [e1']; exact (Option.some.inj hy).symm
   obtain ⟨o3, c8, R⟩ := setRemote_ok hv B.bundle (by rw [hkeq]; exact A.nodup) (by rw [hkeq]; exact A.pre) hacc2 hfit2
+    (fun x hx => by rw [hkeq]; exact A.sctpIn x hx)
   obtain ⟨r1, r2, r3⟩ := R.answer B.type
   -- assemble `negotiate`
   have hneg : negotiate o a = .ok { offerer := o3, answerer := a2, offer := d, answer := ans, offererMid := o2, answererMid := a1 } := by
